@@ -73,8 +73,10 @@ def _convert(docs, seed, pipe=False):
 def drive_case(case):
     rules = [rule_doc(r, i + 1) for i, r in enumerate(case["rules"])]
     filters = [filter_doc(f, i + 1) for i, f in enumerate(case["filters"])]
-    if case.get("glob"):
+    if case.get("glob") == "cond":
         rules = with_global(rules)
+    elif case.get("glob") == "ls":  # the first rule stands in front of the global document that gives the others their product
+        rules = rules[:1] + with_global(rules[1:], key="logsource", sub="product")
     return {
         "id": case["id"],
         "rules": case["rules"],
